@@ -439,6 +439,14 @@ func parseKeyAux(family, key string) map[string]string {
 		if len(f) == 3 {
 			a["bridged"], a["op"], a["name"] = f[0], f[1], f[2]
 		}
+	case family == "history":
+		if len(f) == 3 {
+			a["subject"], a["prop"], a["steps"] = f[0], f[1], f[2]
+		}
+	case family == "structured":
+		if i := strings.Index(key, "/"); i > 0 {
+			a["group"] = key[:i]
+		}
 	case family == "recursion":
 		g := strings.Split(key, "/")
 		if len(g) == 3 {
